@@ -75,7 +75,11 @@ def main(chk, replay=None):
         m = draw(st.floats(0.85, 1.25).map(lambda v: round(v, 4)))
         b = draw(st.floats(0.0, 7.0).map(lambda v: round(v, 4)))
         extra = draw(st.lists(st.tuples(st.integers(2, 200), st.integers(2, 200), st.integers(2, 200)), min_size=0, max_size=6))
-        return dict(chans=chans, op=op, cols=cols, m=m, b=b, extra=extra)      # cols in the drawn (any) order
+        # a channel may be named twice in one to_rfi call (a scatter channel that is also listed as fluorescence): the
+        # law is then applied twice - to the events and to the limits alike
+        # (linear channels only: a log law applied to its own output leaves the floating-point range)
+        twice = op == 'to_rfi' and chans[cols[0] - 1]['kind'] == 'lin' and draw(st.sampled_from([False, True]))
+        return dict(chans=chans, op=op, cols=cols, m=m, b=b, extra=extra, twice=twice)      # cols in the drawn (any) order
 
     @settings(max_examples=400 if chk.quick else 20000, deadline=None, database=None, derandomize=True,
               suppress_health_check=list(HealthCheck))
@@ -99,15 +103,17 @@ def main(chk, replay=None):
             cols0 = [c - 1 for c in case['cols']]
             if case['op'] == 'to_rfi':
                 x = x0
-                y = FlowCal.transform.to_rfi(x, cols0)
+                req = cols0 + ([cols0[0]] if case.get('twice') else [])
+                y = FlowCal.transform.to_rfi(x, req)
                 fns = {}
                 for c in cols0:
                     at = x.amplification_type(c)
                     if at[0] == 0:
                         g = x.amplifier_gain(c) or 1.0
-                        fns[c] = (lambda g: (lambda v: np.asarray(v, dtype=np.float64) / g))(g)
+                        one = (lambda g: (lambda v: np.asarray(v, dtype=np.float64) / g))(g)
                     else:
-                        fns[c] = (lambda a0, a1, r: (lambda v: a1 * 10.0 ** (a0 * np.asarray(v, dtype=np.float64) / r)))(at[0], at[1], x.resolution(c))
+                        one = (lambda a0, a1, r: (lambda v: a1 * 10.0 ** (a0 * np.asarray(v, dtype=np.float64) / r)))(at[0], at[1], x.resolution(c))
+                    fns[c] = (lambda f: (lambda v: f(f(v))))(one) if req.count(c) == 2 else one
             else:
                 x = FlowCal.transform.to_rfi(x0, [0, 1, 2])       # calibrate RFI data, as the workflow does
                 # one curve per channel (all different), calibration listed in file order, request in any order
